@@ -810,8 +810,8 @@ class _Gen:
             return ["ek", w, self.draw(self.st.integers(0, w - 1))]
         if k in ("u", "s") and self.chance(0.07):  # constant Unsigned / Signed object (folded by the tracer)
             lo, hi = rv.value_range(k, w)
-            return ["kv", k, w, self.pick([lo, hi, 0, 1] + ([-1] if k == "s" else [])) if self.chance(0.6)
-                    else self.draw(self.st.integers(lo, hi))]
+            cand = [x for x in (lo, hi, 0, 1, -1) if lo <= x <= hi]
+            return ["kv", k, w, self.pick(cand) if self.chance(0.6) else self.draw(self.st.integers(lo, hi))]
         return self.port(k, w)
 
     # productions per result kind
